@@ -6,6 +6,16 @@ NOTES = ('All checks are ./check <id>; each rebuilds a source-only overlay from 
 NOT_CLAIMED = {}
 
 PROPS = {
+    'C13': {
+        'modules': ['contracts.C13_multipart'],
+        'level': 'proof',
+        'level_text': 'Multipart limits exactly at their thresholds (buffered part size: raises iff content > max, on every call; part count: loop invariant '
+                      'remaining == max - parts yielded, 0 = unlimited; header block read with the configured cap), error mapping (only MultipartParseError leaves '
+                      'iteration: DelimiterError always translated), header filtering (allowed content headers only, lower-cased; Content-Transfer-Encoding other '
+                      'than binary rejected), boundary extraction and the 1..70 rule; sync and async twins.',
+        'level_note': 'Proved over the flat-cursor contract of the buffered reader (C14) as stubs. NOT decided: "parse(encode(parts)) == parts for every body, '
+                      'chunking and consumption pattern" and BodyPart name/filename/text/media accessors -- stated in not_decided.',
+    },
     'C09': {
         'modules': ['contracts.C09_request_headers'],
         'level': 'proof',
